@@ -7,6 +7,7 @@ package http
 //@ spec import lib/http
 //@ spec import lib/std
 //@ spec import C18
+//@ spec import rqlite_http
 //
 // credentialStore, store, proxy, cluster are set when the Service is built and never re-assigned.
 //@ type Service
@@ -368,3 +369,38 @@ package http
 //@ func (*Service) ServeHTTP
 //@   requires [fresh] s != nil && (forall p string :: !authzGranted[p])
 //@   assigns *, authzGranted, chanClosed
+//
+// ---- C23: queued writes -----------------------------------------------------------------------
+// queuedExecute: the statements of one request are rewritten (sql.Process) and then written to
+// the queue with ONE Write (kept together, original order); with wait, the success response is
+// written only after the request's flush channel has fired.
+//@ func (*Service) queuedExecute
+//@   requires [recv] s != nil
+//@   assigns *, chanClosed, authzGranted
+//@   ghost var nW int = 0
+//@   ghost var processed bool = false
+//@   ghost var waited bool = false
+//@   ghost var flushed bool = false
+//@   ghost update @sql.Process: processed = (result == nil)
+//@   ghost update @make: waited = true
+//@   assert @s.stmtQueue.Write: [one-write-all-statements] nW == 0 && arg0 == stmts && arg1 == fc
+//@   assert @s.stmtQueue.Write: [rewritten-first] processed
+//@   ghost update @s.stmtQueue.Write: nW = nW + 1
+//@   ghost update @recv:fc: flushed = true
+//@   assert @s.writeResponse: [success-after-applied] nW == 1 && (waited ==> flushed)
+//
+// runQueue: each batch taken from the queue is executed as one request holding exactly the
+// batch's statements; the batch is signalled complete (Close, sequence number) only after an
+// execute returned nil (or the batch is an empty checkpoint); a failed execute is retried, never
+// skipped.
+//@ func (*Service) runQueue
+//@   requires [recv] s != nil
+//@   assigns *, chanClosed, authzGranted
+//@   ghost var executed bool = false
+//@   ghost update @recv:s.stmtQueue.C: executed = false
+//@   assert @def:er: [same-batch] er != nil && er.Request != nil && er.Request.Statements == req.Objects && er.Request.Transaction == s.DefaultQueueTx
+//@   assert @s.proxy.Execute: [same-request] arg1 == er
+//@   assert @s.proxy.Execute: [caller-creds] s.credentialStore == nil || arg2 != nil
+//@   ghost update @s.proxy.Execute: executed = (result3 == nil)
+//@   assert @atomic.StoreInt64: [seq-after-apply] (er.Request.Statements == nil || executed) && arg1 == req.SequenceNumber
+//@   assert @req.Close: [signal-after-apply] er.Request.Statements == nil || executed
